@@ -4,7 +4,7 @@ correspondence of the extracted model with the hooked real planner on generated 
 typed-identity oracle on the model's abstract execution; end-to-end histories
 {backup, forget, prune(random options)} on the real library with check(read_data) and a
 byte comparison of every remaining snapshot after each step."""
-import os, sys, json
+import os, sys, json, re
 import vlib
 from vlib import ROOT, REPO, sh, log
 
@@ -13,7 +13,7 @@ TODOS = ["Keep", "Repack", "MarkDelete", "KeepMarked", "KeepMarkedAndCorrect", "
 
 
 # ----------------------------------------------------------------------------- planner cases
-def gen_case(rng, big=False):
+def gen_case(rng, big=False, no_repack=False):
     """returns (line, struct) — struct keeps what the typed oracle needs"""
     now = 1_700_000_000 + rng.randint(0, 10 ** 6)
     keep_pack = rng.choice([0, 0, 0, 3600, 86400])
@@ -22,6 +22,7 @@ def gen_case(rng, big=False):
                 no_resize=int(rng.random() < 0.3), instant=int(rng.random() < 0.4))
     mu = rng.choice([(0, 0), (1, 0), (1, 0), (1, 5), (1, 50), (1, 99), (2, 0), (2, 100), (2, 5000)])
     mr = rng.choice([(0, 0), (0, 0), (0, 0), (1, 0), (1, 10), (1, 50), (1, 100), (2, 0), (2, 1000), (2, 100000)])
+    if no_repack: mr = (2, 0)       # max_repack 0 bytes: every repack candidate is kept (plans the exec mode can run)
     sizers = []
     for _ in range(2):
         sizers.append((rng.choice([1000, 5000, 100000]), rng.choice([0, 30, 30, 100]), rng.choice([0, 0, 100, 200])))
@@ -151,12 +152,68 @@ def typed_oracle(st, mp, md):
     return lost, bool(lost) and all(i in both for (_, i) in lost)
 
 
-def run_lines(exe, lines, tag, timeout=3000, pin=False):
+def impl_cover_oracle(st, a):
+    """On the implementation's own plan (decisions + keys left in used_ids): every referenced (type,id) must be
+    in a pack decided Keep/Recover, or be still in used_ids AND in a pack decided Repack (then `retain` hands it
+    to the repacker).  This is the case split from which prune_keeps_used follows (Proofs6.pf_cover)."""
+    dec = {}
+    for x in a["d"]:
+        _, pid, _, todo = x.split(":")
+        dec[int(pid)] = todo
+    left = set()
+    for x in a["left"]:
+        t, i = x.split(":")
+        left.add((None if t == "x" else int(t), int(i)))
+    lost = []
+    for (t, i) in st["used_typed"]:
+        kept = any(todo in ("Keep", "Recover") and any(b[0] == i and b[1] == t for b in st["packs"][pid]["blobs"]) for pid, todo in dec.items())
+        if kept: continue
+        inleft = (t, i) in left or (None, i) in left
+        repacked = any(todo == "Repack" and any(b[0] == i and b[1] == t for b in st["packs"][pid]["blobs"]) for pid, todo in dec.items())
+        if not (inleft and repacked): lost.append((t, i))
+    return lost
+
+
+def exec_oracle(st, a, x):
+    """The statements of prune_keeps_used / only_unused_removed / fresh_marks_carry_run_time /
+    kept_marks_keep_their_time evaluated on what the REAL executor wrote (exec mode of the harness)."""
+    bad = []
+    rw = set(int(v) for v in a["rw"])
+    xp = dict(v.split(":") for v in x.get("xp", []))
+    xd = dict(v.split(":") for v in x.get("xd", []))
+    xrm = set(int(v) for v in x.get("xrm", []))
+    now, inst = st["now"], st["instant"]
+    for d in a["d"]:
+        fid, pid, mark, todo = d.split(":")
+        fid, pid = int(fid), int(pid)
+        p = st["packs"][pid]
+        touched = fid in rw
+        if todo in ("Keep", "Recover"):
+            if pid in xrm: bad.append("pack %d decided %s was removed" % (pid, todo))
+            if touched and str(pid) not in xp: bad.append("pack %d decided %s is not listed in `packs` of the new index" % (pid, todo))
+            if todo == "Recover" and xp.get(str(pid)) not in (None, str(now)) : bad.append("recovered pack %d does not carry the prune time" % pid)
+        elif todo == "MarkDelete" and not inst:
+            if pid in xrm: bad.append("pack %d was removed by the run that only marks it" % pid)
+            if str(pid) not in xd: bad.append("pack %d decided MarkDelete has no entry in packs_to_delete afterwards (it can never be brought back)" % pid)
+            elif xd[str(pid)] != str(now): bad.append("pack %d is newly marked with time %s instead of the time of the run %d (keep-delete is counted from somewhere else)" % (pid, xd[str(pid)], now))
+        elif todo in ("KeepMarked", "KeepMarkedAndCorrect") and not inst:
+            if pid in xrm: bad.append("pack %d decided %s was removed" % (pid, todo))
+            if touched:
+                want = str(p["time"]) if p["time"] is not None else str(now)
+                if str(pid) not in xd: bad.append("pack %d decided %s has no entry in packs_to_delete afterwards" % (pid, todo))
+                elif xd[str(pid)] != want: bad.append("pack %d stays marked but its mark time changed from %s to %s" % (pid, want, xd[str(pid)]))
+    if not inst:
+        deleted = {int(d.split(":")[1]) for d in a["d"] if d.split(":")[3] == "Delete"}
+        for pid in xrm - deleted: bad.append("pack %d removed without instant-delete and without a Delete decision" % pid)
+    return bad
+
+
+def run_lines(exe, lines, tag, timeout=3000, pin=False, mode=None):
     path = os.path.join(vlib.BUILD, "C02", "in_%s_%d.txt" % (tag, os.getpid()))
     open(path, "w").write("\n".join(lines) + "\n")
     # pin=True: one core, so that rustic's parallel archiver cuts packs identically on every run (determinism)
     pre = "taskset -c 0 " if pin and os.path.exists("/usr/bin/taskset") else ""
-    rc, out, err = vlib.sh2("ulimit -s unlimited 2>/dev/null; %s%s %s" % (pre, exe, path), timeout=timeout)
+    rc, out, err = vlib.sh2("ulimit -s unlimited 2>/dev/null; %s%s %s %s" % (pre, exe, path, mode or ""), timeout=timeout)
     os.remove(path)
     res = out.splitlines()
     if rc != 0 or len(res) != len(lines):
@@ -193,9 +250,22 @@ def gen_history(rng, maxsteps, with_collision=False):
                 ops.append([5]); ops.append([6]); nsn += 2; coll = 1
             else:
                 ops.append([0, rng.randint(1, 2 ** 31), rng.randint(0, 5)]); nsn += 1
-        elif r < 0.43 and nsn >= 1:
+        elif r < 0.40 and nsn >= 1:
+            # everything is forgotten and only MARKED (keep_delete 1h); the same content is backed up again together
+            # with a new file (=> duplicates of blobs that sit in marked packs, in a fresh pack that also holds the new
+            # file), the new file goes away again, its snapshot is forgotten: prune must REPACK the fresh pack while
+            # the old copies stay in marked packs - the needed blobs must come out of the repack
+            ops.append([1, 2 ** nsn - 1])
+            p, o = gen_prune(rng, force=dict(instant=0, kd=3600)); p[12] = 0; ops.append(p)
+            ops.append([8, rng.choice([100, 300, 700, 1500])]); ops.append([7]); ops.append([1, 1])
+            p, o = gen_prune(rng, force=dict(instant=0, kd=3600, unc=0, cacheable=rng.choice([0, 1]), noresize=0))
+            p[8], p[9], p[10], p[11], p[12] = 1, 0, 0, 0, 0           # max_unused 0%, max_repack unlimited, keep_pack 0
+            ops.append(p)
+            nforgot += nsn + 1; nsn = 1
+        elif r < 0.46 and nsn >= 1:
             # forget, prune that only MARKS (keep_delete 1h), the forgotten snapshot comes back, prune: must recover
-            mask = rng.randint(1, 2 ** nsn - 1)
+            # (half of the time ALL snapshots are forgotten: then the rewritten index holds marked packs only)
+            mask = 2 ** nsn - 1 if rng.random() < 0.5 else rng.randint(1, 2 ** nsn - 1)
             k = bin(mask).count("1")
             ops.append([1, mask])
             p, o = gen_prune(rng, force=dict(instant=0, kd=3600)); p[12] = 0; ops.append(p)
@@ -229,6 +299,22 @@ COLLISION_REPLAY = "1 4096 512 4 0 5 0 5 6 2 1 0 0 0 0 0 0 1 0 0 0 0 0"
 RECOVER_REPLAYS = [
     "3 2000 256 6 0 101 3 0 102 3 1 1 2 0 0 0 0 0 0 0 1 0 0 0 0 3600 4 0 2 0 0 0 0 0 0 0 1 0 0 0 0 3600",
     "3 2000 256 8 0 101 3 0 102 3 1 1 2 0 0 0 0 0 0 0 1 0 0 0 0 3600 4 0 2 0 0 0 0 0 0 0 1 0 0 0 0 3600 1 3 2 1 0 1 0 1 0 0 1 0 0 0 0 0",
+]
+
+
+P_MARK = "2 0 0 0 0 0 0 0 1 0 0 0 0 3600"       # prune: no instant-delete, max_unused 0%, max_repack unlimited, keep_delete 1h
+TWO_PHASE_REPLAYS = [
+    # (a) backup, forget it, prune (all packs only marked); add a file + backup (old content duplicated into a fresh
+    #     pack next to the new file), remove the file + backup, forget the middle snapshot, prune: the fresh pack is
+    #     repacked while the old copies sit in marked packs
+    "11 20000 256 7 0 1 0 1 1 %s 8 700 7 1 1 %s" % (P_MARK, P_MARK),
+    "12 600 64 7 0 1 0 1 1 %s 8 300 7 1 1 %s" % (P_MARK, P_MARK),
+    # (b) a pack OLDER than keep_delete (3 s) becomes unused; prune marks it; a second prune right away must not
+    #     delete it (keep-delete counts from the marking)
+    "13 20000 256 7 0 1 0 8 600 7 9 3500 1 2 2 0 0 0 0 0 0 0 1 0 0 0 0 3 2 0 0 0 0 0 0 0 1 0 0 0 0 3",
+    # (c) ALL snapshots forgotten, prune only marks; the snapshot comes back; prune must recover its packs
+    "14 4096 256 5 0 1 2 1 1 %s 4 0 %s" % (P_MARK, P_MARK),
+    "15 600 64 8 0 1 2 0 2 2 1 3 %s 4 1 %s 4 0 %s" % (P_MARK, P_MARK, P_MARK),
 ]
 
 
@@ -277,7 +363,7 @@ def run(ctx):
         if "case" in rp.get("witness", {}):
             lines = [rp["witness"]["case"]]; cases = [(lines[0], None)]
     impl_out = run_lines(impl, lines, "impl")
-    mism, hist, nontriv, weak, typed_viol, samples = [], {}, set(), 0, [], []
+    mism, hist, nontriv, weak, typed_viol, samples, cover_viol = [], {}, set(), 0, [], [], []
     boundary = {"mark_time+keep_delete==now": 0, "pack_time+keep_pack==now": 0, "copies>=255": 0}
     if model:
         model_out = run_lines(model, lines, "model")
@@ -291,6 +377,9 @@ def run(ctx):
                     if p["time"] is not None and p["marked"] and p["time"] + st["keep_delete"] == st["now"]: boundary["mark_time+keep_delete==now"] += 1
                     if p["time"] is not None and not p["marked"] and p["time"] + st["keep_pack"] == st["now"]: boundary["pack_time+keep_pack==now"] += 1
                 if st["big"]: boundary["copies>=255"] += 1
+            if st and io.startswith("ok"):
+                lost_i = impl_cover_oracle(st, parse_out(io))
+                if lost_i: cover_viol.append((line, lost_i, io))
             if io != mpart:
                 md = parse_out("ok " + diag) if diag else {}
                 ok_weak = False
@@ -318,12 +407,38 @@ def run(ctx):
                     typed_viol.append((line, lost, coll))
             if len(samples) < 3 and st and 2 <= len(st["packs"]) <= 4 and len(line) < 400:
                 samples.append({"case": line, "impl": io, "model_diag": diag})
+    # 4b. the real EXECUTOR (Repository::prune on a synthetic repository) on plans without Repack: what it writes into
+    #     the new index (sections, TIMES) and what it removes, against the model's `execute` and against the theorems
+    nexec = 6000 if ctx.thorough() else 1200
+    xcases = [gen_case(rng, big=False, no_repack=True) for _ in range(nexec)]
+    xmism, xviol, xrun = [], [], 0
+    if model and not ctx.replay:
+        xl = [c[0] for c in xcases]
+        xi = run_lines(impl, xl, "ximpl", mode="exec")
+        xm = run_lines(model, xl, "xmodel")
+        for (line, st), io, mo in zip(xcases, xi, xm):
+            ipart, _, xs = io.partition(" | ")
+            mpart, _, diag = mo.partition(" | ")
+            if not ipart.startswith("ok") or not xs: continue
+            xrun += 1
+            a = parse_out(ipart.strip()); x = parse_out("ok " + xs)
+            if "xerr" in x:
+                xviol.append((line, ["the executor failed on a plan the planner accepted: " + ",".join(x["xerr"])], io)); continue
+            bad = exec_oracle(st, a, x)
+            if bad: xviol.append((line, bad, io)); continue
+            if mpart.strip() != ipart.strip(): continue            # planner mismatch: reported by stage 4
+            md = parse_out("ok " + diag)
+            same = (sorted(md.get("newpacks", [])) == sorted(x.get("xp", [])) and sorted(md.get("newdel", [])) == sorted(x.get("xd", []))
+                    and sorted(set(md.get("removed", []))) == sorted(x.get("xrm", [])) and md.get("kept_files") == x.get("xkept"))
+            if not same: xmism.append({"case": line, "impl": xs, "model": diag})
+    cov.update({"executor_cases_run_on_real_prune_repository": xrun, "executor_model_mismatches": len(xmism),
+                "executor_oracle_violations": len(xviol), "impl_plan_cover_oracle_violations": len(cover_viol)})
     cov.update({"planner_cases": len(cases), "model_impl_mismatches": len(mism), "compared_weakly_because_of_equal_sort_keys": weak,
                 "boundaries_hit": boundary, "typed_oracle_losses_on_model": len(typed_viol)})
     # 5. end-to-end histories on the real library
     nh = 150 if ctx.thorough() else 30
     maxsteps = 8
-    hl = [COLLISION_REPLAY] + RECOVER_REPLAYS
+    hl = [COLLISION_REPLAY] + RECOVER_REPLAYS + TWO_PHASE_REPLAYS
     for k in range(nh):
         hl.append(gen_history(rng, maxsteps, with_collision=(k % 7 == 3)))
     if ctx.replay:
@@ -340,7 +455,7 @@ def run(ctx):
             continue
         if o.startswith("ok"):
             e2e_steps += int(f.get("steps", 0))
-            for k in ("prunes", "packs_removed", "recovered", "repacked"):
+            for k in ("prunes", "packs_removed", "recovered", "repacked", "marks_checked"):
                 e2e_obs[k] = e2e_obs.get(k, 0) + int(f.get(k, 0))
         else:
             e2e_fail.append((h, o, f))
@@ -360,16 +475,32 @@ def run(ctx):
                 "samples": samples, "distribution": hist,
                 "traces_validated_against_impl": len(cases) + len(hl), "e2e_histories": len(hl), "e2e_steps_verified": e2e_steps,
                 "e2e_observed_counters_may_vary_by_thread_timing": e2e_obs,
-                "e2e_failures": len(e2e_fail), "e2e_backup_side_collisions_skipped": backup_side, "disagreements_checked": len(mism) + len(typed_viol) + len(e2e_fail)})
+                "e2e_failures": len(e2e_fail), "e2e_backup_side_collisions_skipped": backup_side,
+                "disagreements_checked": len(mism) + len(typed_viol) + len(e2e_fail) + len(xmism) + len(xviol) + len(cover_viol)})
     # 6. decide
     for h, o, f in e2e_fail[:20]:
         sig = SIG_COLLISION if f.get("lost_collide") == "1" else None
-        ctx.violation("after %s a remaining snapshot is no longer intact (%s)" % ("prune" if f.get("op") == "2" else "step kind " + f.get("op", "?"), f.get("what", o[:40])),
+        w = f.get("what", o[:40])
+        what = {"early_delete": "a pack that prune had only marked was deleted before keep-delete had passed",
+                "mark_time": "prune writes a mark time that is not the time of the marking run (keep-delete is not counted from the marking)",
+                "index_entry_lost": "a marked pack lost its index entry (it can never be brought back)"}.get(w)
+        ctx.violation(what or "after %s a remaining snapshot is no longer intact (%s)" % ("prune" if f.get("op") == "2" else "step kind " + f.get("op", "?"), w),
                       {"history": h, "result": o, "how_to_replay": "echo '<history>' | <target>/debug/c02_e2e -   (format: harness/src/bin/c02_e2e.rs)"}, signature=sig)
+    for line, lost_i, io in cover_viol[:10]:
+        ctx.violation("prune plan loses a referenced blob: it is neither in a pack that is kept/recovered nor handed to the repacker",
+                      {"case": line, "lost_type_id": lost_i, "impl_plan": io[:1500],
+                       "how_to_replay": "echo '<case>' | <target>/debug/c02 -   (format: harness/src/bin/c02.rs)"})
+    for line, bad, io in xviol[:10]:
+        ctx.violation("prune execution breaks the two-phase delete: " + re.sub(r"\d+", "N", bad[0]),
+                      {"case": line, "all": bad[:8], "impl": io[:1500],
+                       "how_to_replay": "echo '<case>' > f; <target>/debug/c02 f exec   (format: harness/src/bin/c02.rs)"})
     for line, lost, coll in typed_viol[:20]:
         ctx.violation("model execution of prune loses a referenced (type,id) blob",
                       {"case": line, "lost": lost, "how_to_replay": "echo '<case>' | build/C02/model -   and   <target>/debug/c02 -"},
                       signature=SIG_COLLISION if coll else None)
+    if xmism and not ctx.violations:
+        ctx.violation("correspondence broken: the model's execute disagrees with the real prune_repository on what is written/removed (%d of %d plans); the theorem statements still hold on the real output" % (len(xmism), xrun),
+                      {"correspondence": "props/C02 Model.execute vs Repository::prune on a synthetic repository", "first": xmism[0]}, no_input=True)
     if mism and not ctx.violations:
         ctx.violation("correspondence broken: extracted model of the prune planner disagrees with the implementation (%d of %d cases); no data loss found by the oracle" % (len(mism), len(cases)),
                       {"correspondence": "props/C02 Model.plan vs PrunePlan (hook c02::plan)", "first": mism[0]}, no_input=True)
